@@ -1884,10 +1884,10 @@ class Symex:
             import itertools
             rep = kw.get("repeat", 1)
             return [tuple(p) for p in itertools.product(*[list(self.iterate(a, node)) for a in args], repeat=rep)]
-        if name in ("permutations", "combinations", "combinations_with_replacement") and not isinstance(args[0], T) \
-                and all(isinstance(a, int) for a in args[1:]):
+        if short in ("permutations", "combinations", "combinations_with_replacement") and name in (short, "itertools." + short) \
+                and args and not isinstance(args[0], T) and all(isinstance(a, int) for a in args[1:]):
             import itertools
-            return [tuple(p) for p in getattr(itertools, name)(list(self.iterate(args[0], node)), *args[1:])]
+            return [tuple(p) for p in getattr(itertools, short)(list(self.iterate(args[0], node)), *args[1:])]
         if name in ("Rational", "sympy.Rational") and len(args) == 2 and all(is_num(a) for a in args) and args[1] != 0:
             return t_div(args[0], args[1])
         if short == "sqrt" and len(args) == 1 and (is_num(args[0]) or isinstance(args[0], T)):
